@@ -126,12 +126,26 @@ def run(ctx):
               % sorted(callers - {"ZConfig.cfgparser",
                                   "ZConfig.substitution"}))
 
+    from zcstatic import crosscheck as X
+    virt = {}
+    if m.lookup_method(OB, "_normalize_case") is None:
+        # the private one-line helper has been inlined into its caller: the
+        # reference is read with its own helper expanded as well
+        virt = {"_normalize_case": X.spec_method(
+            P, REF, "optionbag_normalize_case", OB)}
     crosscheck(ctx, "C14.R5", OB + ".get_section_info", REF,
-               "get_section_info", OB, "select, consume, hand down the tail")
+               "get_section_info", OB, "select, consume, hand down the tail",
+               ref_kw={"virtual": virt} if virt else None)
     crosscheck(ctx, "C14.R5", OB + ".basic_key", REF, "optionbag_basic_key",
                OB, "basic-key of a path component, error -> syntax error")
-    crosscheck(ctx, "C14.R5", OB + "._normalize_case", REF,
-               "optionbag_normalize_case", OB, "lower()")
+    if not virt:
+        crosscheck(ctx, "C14.R5", OB + "._normalize_case", REF,
+                   "optionbag_normalize_case", OB, "lower()")
+    else:
+        run.ok("C14.R5", OB, "_normalize_case",
+               "the helper is inlined into get_section_info; compared there "
+               "against the reference with its helper expanded",
+               nontrivial=False)
 
     crosscheck(ctx, "C14.R6", OB + ".__init__", REF, "optionbag_init", OB,
                "key type applied under the DataConversionError wrapper; "
